@@ -95,6 +95,16 @@ def _get_cache_size_313(opname: str) -> int:
     return _inline_cache_entries.get(opname, 0)
 
 
+def get_jump_cache_size(opname: str, opc) -> int:
+    """Number of inline CACHE entries that follow jump instruction ``opname``;
+    relative jump targets are computed from the end of these."""
+    if opc.version_tuple >= (3, 13):
+        return _get_cache_size_313(opname)
+    if opc.version_tuple >= (3, 12):
+        return {"FOR_ITER": 1, "SEND": 1}.get(opname, 0)
+    return 0
+
+
 def findlabels(code, opc):
     if opc.version_tuple < (3, 10):
         return findlabels_pre_310(code, opc)
@@ -113,10 +123,8 @@ def findlabels_310(code: bytes, opc):
                 if opc.version_tuple >= (3, 11) and "JUMP_BACKWARD" in opc.opname[op]:
                     arg = -arg
                 label = offset + 2 + arg * 2
-                # in 3.13 we have to add total cache offsets to label
-                if opc.version_tuple >= (3, 13):
-                    cachesize = _get_cache_size_313(opc.opname[op])
-                    label += 2 * cachesize
+                # in 3.12+ we have to add total cache offsets to label
+                label += 2 * get_jump_cache_size(opc.opname[op], opc)
             elif op in opc.JABS_OPS:
                 label = arg * 2
             else:
